@@ -383,7 +383,7 @@ RULES.append(("C04.o", "must-pass-through: no path around the effects this prope
 
 def rule_commit(ctx):
     from . import mustpass
-    for g, floor in [('pool', 40), ('sched-queue', 25), ('mailbox-signals', 12), ('ports', 80), ('lockfree', 40)]:
+    for g, floor in [('pool', 40), ('sched-queue', 25), ('mailbox-signals', 12), ('ports', 80), ('lockfree', 25)]:
         mustpass.commit_group(ctx, g, floor)
 
 
